@@ -599,12 +599,17 @@ def reads_member(n, qp):
     return any(x.k == 'MemberExpr' and x.decl is not None and x.decl.get('qp') == qp for x in n.walk())
 
 
-def reads_local_of_field(n, fnum):
-    """n reads a local variable whose type is FIX8::Field<_, fnum>"""
+def reads_local_of_field(n, fnum, _depth=0):
+    """n reads a local variable whose type is FIX8::Field<_, fnum> — directly, or through a local that is initialised once from such a read
+    (`const int newseqnum(nsn());`)"""
     for x in n.walk():
         if x.k == 'DeclRefExpr' and x.decl is not None and x.decl.get('sc') in ('local', 'param'):
             if field_num(x.fn.tu.types[x.decl['t']]['c']) == fnum:
                 return True
+            if _depth < 2 and x.decl.get('sc') == 'local':
+                defs = local_defs(x.fn, x.declid)
+                if len(defs) == 1 and defs[0][1] == 'init' and defs[0][2] is not None and reads_local_of_field(defs[0][2], fnum, _depth + 1):
+                    return True
     return False
 
 
